@@ -49,7 +49,7 @@ def plan(tier):
     out = []
     for i in range(4):
         ks = keys[i::4]
-        out.append(shard("flips_%d" % i, 4, Keys=q(ks), UidLens=S([0, 16]), MsgLens=S([1, 64]), MutSel=q(["flip"])))
+        out.append(shard("flips_%d" % i, 4, Keys=q(ks), UidLens=S([0, 16]), MsgLens=S([1, 64]), MutSel=q(["flip"]), FlipMasks=S([1, 2, 4, 8, 16, 32, 64, 128])))
         out.append(shard("struct_%d" % i, 4, Keys=q(ks), Entries=q(["sign_gm", "legacy_signwithsm2"]), UidLens=S([0, 16]), MsgLens=S([0, 64]), MutSel=q(M_STRUCT), NForge=8))
         out.append(shard("combos_%d" % i, 4, Keys=q(ks), Entries=q(["signasn1_gm", "sign_nil"]), UidLens=S([0, 1, 16, 64]), MsgLens=S([0, 1, 64, 1024]),
                          MutSel=q(["none", "ctx"])))
@@ -168,6 +168,18 @@ def run(ctx):
     for i, c in enumerate((cfgs.K_EC[0], cfgs.K_EC[3])):
         ev = ctx.record("sm2dsa", nrec, seed=ctx.seed + 7919 * i, tags=c["tags"], env=c["env"], name="sm2dsa-" + c["label"])
         ctx.validate("Trace_Sm2Dsa", ev, "sm2dsa", shards=6 if ctx.tier == "quick" else 8, label=c["label"], guard=(i == 0), timeout=2400)
+
+    # what the failures are, by class (evidence only)
+    classes = {}
+    for f in ctx.fails:
+        steps = (f.get("trace") or {}).get("steps") or [{}]
+        first = steps[0]
+        st = steps[f["step"]] if isinstance(f.get("step"), int) and 0 <= f["step"] < len(steps) else {}
+        k = "%s|%s|key=%s route=%s|at %s #%s|%s" % (f.get("fam"), f.get("kind"), first.get("key", first.get("d", ""))[-8:], first.get("route"),
+                                                  st.get("op"), f.get("step"), str(f.get("got"))[:60])
+        classes[k] = classes.get(k, 0) + 1
+    if classes:
+        ctx.extra["failure_classes"] = dict(sorted(classes.items(), key=lambda kv: -kv[1])[:40])
 
     ctx.sample_traces(lastverify)
     ctx.sample_traces(lastsign)
